@@ -90,7 +90,15 @@ fn t2l(b: &Value) {
             }
             // `instr`: one call of an attributed function (sync, or async polled to completion); logged like a span site
             "instr" => {
-                if st["which"] == "async" {
+                if st["which"] == "manual" {
+                    // a future wrapped by hand: Instrumented enters the span around the poll and again around dropping the future
+                    use tracing::Instrument;
+                    let mut f = Box::pin(async { 7u32 }.instrument(tracing::info_span!(target: "logbridge", "manual_fut", x = 7u32)));
+                    let w = vh_common::noop_waker();
+                    let mut cx = std::task::Context::from_waker(&w);
+                    let _ = std::future::Future::poll(f.as_mut(), &mut cx);
+                    drop(f);
+                } else if st["which"] == "async" {
                     let mut f = Box::pin(inst_async(7));
                     let w = vh_common::noop_waker();
                     let mut cx = std::task::Context::from_waker(&w);
